@@ -42,7 +42,14 @@ RIMP = ("matmul", "identity", "affine_apply", "translation", "scaling")     # ha
 OWN = ("copy_assign", "copy_ctor", "members")     # harness/cxx2own.py
 
 
+IOL = ("io_constant", "io_identity", "io_strided", "io_morton", "io_hilbert", "io_clamp", "io_backup", "io_affine", "io_linear",
+       "io_nearest_neighbour", "io_shuffle", "io_covariant_cast", "io_dereference")     # harness/cxx2io.py
+
+
 def _translate(k):
+    if k in IOL:
+        from harness import cxx2io
+        return cxx2io.translate(str(C.REPO), k), {"scalars": [], "arrays": []}
     if k in OWN:
         from harness import cxx2own
         return cxx2own.translate(str(C.REPO), k), {"scalars": [], "arrays": []}
@@ -56,6 +63,9 @@ def _translate(k):
 
 
 def _where(k):
+    if k in IOL:
+        from harness import cxx2io
+        return cxx2io.LAYERS[k] + " write_binary / read_binary"
     if k in OWN:
         from harness import cxx2own
         return cxx2own.KERNELS[k]
